@@ -769,6 +769,93 @@ def _named_values(fn, self_unstable=None):
     return n_done
 
 
+# ------------------------------------------------------------------ N4 container-building loops -> comprehensions
+
+def _read_before_rebound(stmts, names):
+    """some name of `names` can be read by stmts before it is bound again (events in evaluation order; a loop target re-binds)"""
+    live = set(names)
+
+    def visit(n):
+        if not live:
+            return False
+        if isinstance(n, (ast.For, ast.AsyncFor)):
+            if visit(n.iter):
+                return True
+            for x in ast.walk(n.target):
+                if isinstance(x, ast.Name):
+                    live.discard(x.id)
+            return any(visit(c) for c in n.body + n.orelse)
+        if isinstance(n, ast.Assign):
+            if visit(n.value):
+                return True
+            for t in n.targets:
+                if isinstance(t, ast.Name):
+                    live.discard(t.id)
+                elif visit(t):
+                    return True
+            return False
+        if isinstance(n, ast.Name):
+            return isinstance(n.ctx, ast.Load) and n.id in live
+        if isinstance(n, (ast.If, ast.While, ast.Try, ast.With, ast.AsyncWith)):
+            # a binding made inside one branch does not protect the other paths: judge each part with the current live set, kill nothing
+            saved = set(live)
+            hit = False
+            for c in ast.iter_child_nodes(n):
+                live.clear()
+                live.update(saved)
+                if visit(c):
+                    hit = True
+                    break
+            live.clear()
+            live.update(saved)
+            return hit
+        return any(visit(c) for c in ast.iter_child_nodes(n))
+    return any(visit(s) for s in stmts)
+
+
+def _loops_to_comprehensions(fn):
+    """`r = []` + `for v in it: r.append(e)` -> `r = [e for v in it]`;  `d = {}` + `for v in it: d[k] = e` -> `d = {k: e for v in it}`
+    (one optional `if c:` around the single statement becomes the comprehension's filter).  Only when the loop directly follows
+    the empty initialisation, has no else, and the loop variables are not used after the loop."""
+    n_done = 0
+    for blk in _blocks(fn):
+        i = 0
+        while i + 1 < len(blk):
+            a, lp = blk[i], blk[i + 1]
+            i += 1
+            if not (isinstance(a, ast.Assign) and len(a.targets) == 1 and isinstance(a.targets[0], ast.Name) and isinstance(lp, ast.For) and not lp.orelse):
+                continue
+            name = a.targets[0].id
+            empty_list = isinstance(a.value, ast.List) and not a.value.elts
+            empty_dict = isinstance(a.value, ast.Dict) and not a.value.keys
+            if not (empty_list or empty_dict) or len(lp.body) != 1:
+                continue
+            st, cond = lp.body[0], None
+            if isinstance(st, ast.If) and not st.orelse and len(st.body) == 1:
+                st, cond = st.body[0], st.test
+            tvars = {x.id for x in ast.walk(lp.target) if isinstance(x, ast.Name)}
+            if _read_before_rebound(blk[i + 1:], tvars):
+                continue
+            if any(isinstance(x, ast.Name) and x.id == name for x in ast.walk(lp.iter)) or (cond is not None and any(isinstance(x, ast.Name) and x.id == name for x in ast.walk(cond))):
+                continue
+            gen = ast.comprehension(target=lp.target, iter=lp.iter, ifs=[cond] if cond is not None else [], is_async=0)
+            new = None
+            if empty_list and isinstance(st, ast.Expr) and isinstance(st.value, ast.Call) and isinstance(st.value.func, ast.Attribute) and st.value.func.attr == "append" and \
+                    isinstance(st.value.func.value, ast.Name) and st.value.func.value.id == name and len(st.value.args) == 1 and \
+                    not any(isinstance(x, ast.Name) and x.id == name for x in ast.walk(st.value.args[0])):
+                new = ast.ListComp(elt=st.value.args[0], generators=[gen])
+            elif empty_dict and isinstance(st, ast.Assign) and len(st.targets) == 1 and isinstance(st.targets[0], ast.Subscript) and isinstance(st.targets[0].value, ast.Name) and \
+                    st.targets[0].value.id == name and not any(isinstance(x, ast.Name) and x.id == name for x in ast.walk(st.value)) and \
+                    not any(isinstance(x, ast.Name) and x.id == name for x in ast.walk(st.targets[0].slice)):
+                new = ast.DictComp(key=st.targets[0].slice, value=st.value, generators=[gen])
+            if new is None:
+                continue
+            blk[i - 1] = ast.copy_location(ast.Assign(targets=[a.targets[0]], value=ast.copy_location(new, lp), lineno=a.lineno), a)
+            blk[i] = ast.copy_location(ast.Pass(), lp)
+            n_done += 1
+    return n_done
+
+
 # ------------------------------------------------------------------ N3 conditional expressions at statement level
 
 def _expand_ifexp(fn):
@@ -825,6 +912,7 @@ def normalize(modname, tree):
     for n in ast.walk(tree):
         if isinstance(n, FUNC):
             # N3 is not applied (see flow.return_alts: rules enumerate the alternatives of a conditional return themselves)
+            stats["comprehensions"] = stats.get("comprehensions", 0) + _loops_to_comprehensions(n)
             stats["named_conditions"] += _named_conditions(n)
             stats["named_values"] = stats.get("named_values", 0) + _named_values(n, unstable.get(n))
             stats["named_conditions"] += _named_conditions(n)
